@@ -12,6 +12,12 @@ def sofaIdOf (j : JFs) : Option String :=
   | some (.str n) => some n
   | _ => none
 
+/-- no two sofa elements name the same view, except for the initial view (which exists before the first element is read:
+    every element naming it is applied to it) -/
+def SofaNamesDistinct (l : List JFs) : Prop :=
+  l.Pairwise (fun a b => a.ty = SOFA → b.ty = SOFA →
+    ∀ n, sofaIdOf a = some n → sofaIdOf b = some n → n = Cas.INITIAL_VIEW)
+
 /-- Invariant of the two parsing passes (`sofaPass`, `fsPass`): every id registered in the id table
     (`feature_structures`: structures and sofas) is at most `maxId`, and the view of every registered sofa has a sofa id
     and sofaNum of at most `maxId` / `maxNum`. -/
